@@ -19,22 +19,46 @@ Inductive prep_res : Type :=
 | PSkip                                      (* start register set to nil *)
 | PStart (start limit step : num).
 
-(* operands are numbers here: ToNumberValue has been applied (strings converted, non-numbers rejected) *)
-Definition prepfor (start stop step : num) : prep_res :=
-  let '(start, step) :=
-    match start, step with
-    | NInt a, NFlt _ => (NFlt (of_int a), step)
-    | NFlt _, NInt s => (start, NFlt (of_int s))
-    | _, _ => (start, step)
-    end in
-  if isZero step then PErrZero else
-  let done := if isPositive step then num_lt stop start else num_lt start stop in
-  if done then PSkip else PStart start stop step.
+(* func forLimit(limit Value, step int64) (int64, bool): clip the limit of an integer loop *)
+Definition forLimit (limit : num) (step : Z) : Z * bool :=
+  match limit with
+  | NInt n => (n, false)
+  | NFlt f0 =>
+      let f := if 0 <? step then ffloor f0 else fceil f0 in
+      if fis_nan f then (0, true)
+      else if fle f2p63 f then (maxint, step <? 0)
+      else if flt f (fneg f2p63) then (minint, 0 <? step)
+      else (go_f2i f, false)
+  end.
 
+(* operands are numbers here: ToNumberValue has been applied (strings converted, non-numbers rejected).
+   After the repair: zero-step test; integer loop iff start and step are integers (limit clipped by
+   forLimit, initial test on integers); otherwise the three values become floats and the loop runs
+   iff start <= stop (start >= stop when the step is not positive). *)
+Definition prepfor (start stop step : num) : prep_res :=
+  if isZero step then PErrZero else
+  match start, step with
+  | NInt a, NInt st =>
+      let '(limit, done) := forLimit stop st in
+      let done := if done then true else if 0 <? st then limit <? a else a <? limit in
+      if done then PSkip else PStart start (NInt limit) step
+  | _, _ =>
+      let fs := tofloat start in let fl := tofloat stop in let fst := tofloat step in
+      let done := if flt fzero0 fst then negb (fle fs fl) else negb (fle fl fs) in
+      if done then PSkip else PStart (NFlt fs) (NFlt fl) (NFlt fst)
+  end.
+
+(* advfor: integer value: Add, overflow test, exact comparison with the (integer) limit;
+   float value: continue iff next <= stop (next >= stop when the step is not positive).
+   prepfor guarantees that stop is a float in a float loop (tofloat is the identity there). *)
 Definition advfor (start stop step : num) : option num :=
   let next := add start step in
-  let done := if isPositive step then num_lt stop next || num_lt next start
-              else num_lt next stop || num_lt start next in
+  let done :=
+    match next with
+    | NInt _ => if isPositive step then num_lt stop next || num_lt next start
+                else num_lt next stop || num_lt start next
+    | NFlt nf => if isPositive step then negb (fle nf (tofloat stop)) else negb (fle (tofloat stop) nf)
+    end in
   if done then None else Some next.
 
 (* the loop: values seen by the body; false = fuel exhausted, still running *)
@@ -116,4 +140,29 @@ Definition for_s (fuel : nat) (start limit step : num) : for_res :=
       let run := if flt fzero0 st then fle x l else fle l x in
       if run then let '(vs, fin) := s_float_loop fuel x l st in FRun vs fin
       else FRun [] true
+  end.
+
+(* ------------------------------------------------------------------ operands that may not be numbers *)
+(* The three control values as Lua values: a number, or something ToNumberValue turns into a number
+   (a numeric string; the conversion itself is C02's subject and is a parameter here), or not a number. *)
+Inductive forval : Type :=
+| FVNum (x : num)
+| FVConv (x : num)       (* a string that converts to x *)
+| FVBad.                 (* nil, boolean, table, non-numeric string, ... *)
+
+Definition fv_num (v : forval) : option num :=
+  match v with FVNum x | FVConv x => Some x | FVBad => None end.
+
+Inductive forv_res : Type :=
+| FVErrInit | FVErrLimit | FVErrStep     (* "'for' initial value/limit/step: expected number, got ..." *)
+| FVRes (r : for_res).
+
+(* prepfor on values: ToNumberValue on the three registers, error naming the first non-number in the
+   order start, limit, step; then the numeric prepfor *)
+Definition for_im_val (fuel : nat) (start stop step : forval) : forv_res :=
+  match fv_num start, fv_num stop, fv_num step with
+  | None, _, _ => FVErrInit
+  | Some _, None, _ => FVErrLimit
+  | Some _, Some _, None => FVErrStep
+  | Some a, Some b, Some c => FVRes (for_im fuel a b c)
   end.
